@@ -18,7 +18,7 @@ def summary(p):
 
 def gen_cases(ctx, prop, out):
     """TLC enumerates every case of FilterGen for (prop, tier) into `out` (ndjson)."""
-    res = vlib.run_tlc("FilterGen", "FilterGen.cfg", workers=WORKERS, timeout=1500, payloads={"CASE": out},
+    res = vlib.run_tlc("FilterGen", "FilterGen.cfg", workers=2, timeout=1500, payloads={"CASE": out},
                        consts={"Prop": '"%s"' % prop, "Tier": '"%s"' % ctx.tier})
     if res.violated or not res.ok:
         raise vlib.HarnessError("FilterGen violates its own well-formedness invariant %s:\n%s" % (res.violated, res.error_state))
